@@ -304,3 +304,58 @@ def acyclic(tables):
         state[n] = 2
         return True
     return all(visit(n) for n in tables)
+
+
+# ------------------------------------------------------------------------------------------------ evolved databases (create_tables on existing objects)
+
+def gen_history(rng):
+    """v1 = a small ASCII diagram; v2 = v1 plus indexes (index=True / index='name' on plain attributes, composite_index);
+    drop = positions of explicitly created indexes dropped by raw SQL before the second generate_mapping(create_tables=True)."""
+    import copy
+    ne = rng.randint(1, 3)
+    ents = []
+    for i in range(ne):
+        e = {'name': ['Person', 'Group', 'Item'][i], 'table': None, 'base': None, 'attrs': [], 'ckeys': [], 'cindexes': [], 'cpk': None}
+        for j in range(rng.randint(2, 4)):
+            a = {'name': 'a%d' % j, 'kind': rng.choice(['Required', 'Optional']), 'type': rng.choice(['int', 'str']), 'opts': {}}
+            r = rng.random()
+            if r < 0.25: a['opts']['index'] = rng.choice([True, 'ix_%d_%d' % (i, j)])
+            elif r < 0.35: a['opts']['unique'] = True
+            e['attrs'].append(a)
+        if rng.random() < 0.3: e['cindexes'].append(['a0', 'a1'])
+        ents.append(e)
+    for i in range(1, ne):
+        if rng.random() < 0.6:      # one-to-many: a foreign key with its own index
+            ents[i]['attrs'].append({'name': 'owner', 'kind': rng.choice(['Required', 'Optional']), 'type': ents[0]['name'], 'opts': {'reverse': 'things%d' % i}})
+            ents[0]['attrs'].append({'name': 'things%d' % i, 'kind': 'Set', 'type': ents[i]['name'], 'opts': {'reverse': 'owner'}})
+    v1 = {'entities': ents, 'rels': []}
+    v2 = copy.deepcopy(v1)
+    added = 0
+    if rng.random() < 0.75:
+        for e in v2['entities']:
+            for a in e['attrs']:
+                if a['kind'] in ('Required', 'Optional') and a['type'] in ('int', 'str') and not a['opts'] and rng.random() < 0.4:
+                    a['opts']['index'] = rng.choice([True, 'new_%s_%s' % (e['name'].lower(), a['name'])]); added += 1
+            if not e['cindexes'] and any(a['name'] == 'a2' for a in e['attrs']) and rng.random() < 0.3:
+                e['cindexes'].append(['a1', 'a2']); added += 1
+    drop = [rng.randrange(8) for _ in range(rng.randint(1, 2))] if (added == 0 or rng.random() < 0.4) else []
+    return {'source_v1': source_of(v1), 'source_v2': source_of(v2), 'drop': drop, 'added': added}
+
+
+def judge_history(h, o):
+    if o['outcome'] in ('rejected', 'v1-not-created'): return []
+    if o['outcome'] != 'ok':
+        return [('create_tables-on-existing-database:%s:%s' % (o['outcome'], o['error'][0]), '%s: %s' % tuple(o['error']))]
+    out = []
+    after = {n.lower() for n in o['after']}
+    existed = {n.lower() for n in o['before']}
+    for objs in o['object_lists']:
+        for typ, name in objs:
+            if name.lower() not in after:
+                table_existed = objs[0][1].lower() in existed
+                out.append(('create_tables:declared-%s-missing-afterwards:%s' % (typ.lower().replace(' ', '-'), 'table-existed-before' if table_existed else 'new-table'),
+                            '%s %r declared for table %r is not in sqlite_master after generate_mapping(create_tables=True); existing before: %r' % (typ, name, objs[0][1], o['before'])))
+    for n in o['before']:
+        if n.lower() not in after: out.append(('create_tables:existing-object-lost', n))
+    if o.get('check_tables') != 'ok': out.append(('create_tables:check-tables-fails-afterwards', str(o.get('check_tables'))))
+    return out
